@@ -77,6 +77,8 @@ class Ctx(object):
         os.makedirs(self.build)
         self._distinct = set()
         self.notes = []
+        self.fail_samples = {}     # (where, kind) -> [info]   (maintenance: predicate inference for new findings)
+        self.pass_samples = {}     # where -> [info]
         # replays of earlier runs of this property are stale
         rd = os.path.join(REPLAY_ROOT, prop)
         if os.path.isdir(rd):
@@ -109,10 +111,17 @@ class Ctx(object):
         print('note: ' + s)
 
     # ------------------------------------------------------------------ findings / violations
+    def passed(self, where, info):
+        l = self.pass_samples.setdefault(where, [])
+        if len(l) < 400:
+            l.append(info)
+
     def report(self, where, kind, info, replay, found_input=True):
         """A failure of the property was observed (or an obligation broke).  `where` = protocol or call
         site, `kind` = failure class, `info` = dict the 'when' predicate is evaluated over, `replay` =
         JSON-serialisable reproduction.  Returns True when it is a listed known finding."""
+        if found_input and isinstance(info, dict):
+            self.fail_samples.setdefault((where, kind), []).append(info)
         for f in self.findings:
             if f.get('status', 'open') != 'open':
                 continue
@@ -155,6 +164,8 @@ class Ctx(object):
         os.makedirs(EVIDENCE_DIR, exist_ok=True)
         with open(os.path.join(EVIDENCE_DIR, self.prop + '.json'), 'w') as fh:
             json.dump(ev, fh, indent=1, sort_keys=True, default=str)
+        if os.environ.get('VERIF_WRITE_FINDINGS'):
+            self.write_findings()
         for line in self.known_lines:
             print(line)
         for v in self.violations:
@@ -166,6 +177,51 @@ class Ctx(object):
             self.prop, self.tier, cov['discharged'], cov['obligations'], cov['evaluations'],
             len(self.known_hits), len(self.violations), time.time() - self.t0))
         sys.exit(1 if self.violations else 0)
+
+
+def infer_when(fails, passes):
+    """Simplest predicate over integer-valued info keys that holds on every failing sample and on no passing one."""
+    if not passes:
+        return 'always', 'no passing sample of this protocol was seen'
+    keys = [k for k in fails[0] if all(isinstance(f.get(k), int) and not isinstance(f.get(k), bool) for f in fails)
+            and all(isinstance(q.get(k), int) for q in passes)]
+    for k in keys:
+        lo_f = min(f[k] for f in fails)
+        hi_f = max(f[k] for f in fails)
+        # only natural thresholds are trusted (a power of two, or the minimum), never a sampling artefact
+        if all(q[k] < lo_f for q in passes) and lo_f > 0 and lo_f & (lo_f - 1) == 0:
+            return '%s >= %d' % (k, lo_f), 'threshold'
+        if all(q[k] > hi_f for q in passes) and (hi_f == 0 or (hi_f + 1) & hi_f == 0):
+            return '%s <= %d' % (k, hi_f), 'threshold'
+    for k in keys:
+        for b in range(0, 64):
+            if all((f[k] >> b) & 1 for f in fails) and not any((q[k] >> b) & 1 for q in passes):
+                return '(%s >> %d) & 1 == 1' % (k, b), 'bit'
+            if not any((f[k] >> b) & 1 for f in fails) and all((q[k] >> b) & 1 for q in passes):
+                return '(%s >> %d) & 1 == 0' % (k, b), 'bit'
+    return 'always', 'operand-dependent; no simple predicate separates failing from passing samples (coarse entry)'
+
+
+def _write_findings(self):
+    kf = load_json(FINDINGS_FILE)
+    have = {(f['property'], f['where'], f['kind']) for f in kf['findings']}
+    for v in self.violations:
+        where, kind = v['key']
+        if not v['found_input'] or (self.prop, where, kind) in have:
+            continue
+        fails = self.fail_samples.get((where, kind), [])
+        when, how = infer_when(fails, self.pass_samples.get(where, [])) if fails else ('always', 'no sample')
+        body = json.load(open(v['path']))
+        kf['findings'].append(dict(id='%s/%s/%s' % (self.prop, where, re.sub(r'\W+', '-', kind)), property=self.prop,
+                                   where=where, kind=kind, when=when, when_basis=how, status='open',
+                                   what='%s: %s%s' % (where, kind, '' if when == 'always' else ' when ' + when),
+                                   witness=body['replay']))
+        print('finding added: %s %s %s when %s' % (self.prop, where, kind, when))
+    with open(FINDINGS_FILE, 'w') as fh:
+        json.dump(kf, fh, indent=1)
+
+
+Ctx.write_findings = _write_findings
 
 
 # ---------------------------------------------------------------------- Coq
@@ -265,6 +321,7 @@ def drain_workers():
 
 # ---------------------------------------------------------------------- model evaluation helpers
 CASES_PREAMBLE = '''From Coq Require Import ZArith List Bool.
+Require Coq.Strings.String.
 Import ListNotations.
 Open Scope Z_scope.
 Set Printing Width 100000000.
